@@ -479,6 +479,8 @@ def plan(tier, seed):
     specs.append(dict(name="hops", kind="hops"))
     specs.append(dict(name="rings", kind="rings"))
     specs.append(dict(name="all-messages", kind="allmsgs", tier=tier))
+    # once more with the library's debug tracing switched on
+    specs.append(dict(name="tracing-trees", kind="trees", n=60 if tier == "quick" else 1500, tracing=True))
     return specs
 
 
